@@ -53,7 +53,8 @@ def main():
     shutil.rmtree(outdir, ignore_errors=True)
     base = meta.get("base_commit") or "HEAD"
     r = sh(f"git -C /repo worktree add --detach {wt} HEAD")
-    if r.returncode == 0 and base != "HEAD" and sh(f"git -C {wt} apply --check {seed}/patch.diff").returncode != 0:
+    if r.returncode == 0 and base != "HEAD" and (meta.get("pin_base") or sh(f"git -C {wt} apply --check {seed}/patch.diff").returncode != 0):
+        # (pin_base: a later fix made this change harmless on HEAD - it breaks the property only on the commit it was written against)
         # the change was written against an earlier commit and no longer applies to HEAD (a later fix touched the same lines)
         sh(f"git -C /repo worktree remove --force {wt}")
         r = sh(f"git -C /repo worktree add --detach {wt} {base}")
